@@ -405,64 +405,42 @@ def _packet_id_from_iterator(ctx, R, gen, m, hm, ci, init) -> bool:
 
 
 def r6(ctx):
-    """Finite-set abstract interpretation of HeaderFactory._packet_id: the set of counter values reachable from the
-    initial value is computed by applying the method's own arithmetic (evaluated by this checker over the AST, the
-    repository code is never executed); every value it can return must fit the packet_id slot of the header struct."""
+    """Finite-state exploration of the packet counter: HeaderFactory.__init__ and create_from_message are evaluated by the
+    checker's own interpreter (sa/minieval.py; the repository code is never executed) from the initial state until a
+    counter state repeats; every id handed out must fit the packet_id slot of the header struct and the ids must run
+    0, 1, ..., limit-1 and start again.  `next(itertools.cycle(<constant sequence>))` is the second accepted idiom."""
+    from ..minieval import FakeObj, Mini, Unsupported
+
     R = "C01.R6"
     for gen in ("at4", "at5"):
         m = ctx.repo.module(f"pyairtouch.{gen}.comms.registry")
         hm = ctx.repo.module(f"pyairtouch.{gen}.comms.hdr")
         ci = m.get_class("HeaderFactory")
-        fn = ci.methods.get("_packet_id")
         init = ci.methods.get("__init__")
-        if fn is None and init is not None and _packet_id_from_iterator(ctx, R, gen, m, hm, ci, init):
+        cfm = ci.methods.get("create_from_message")
+        ctx.require(init is not None and cfm is not None, f"{m.relpath}: HeaderFactory.__init__/create_from_message vanished")
+        if "_packet_id" in ci.methods:
+            ctx.fn(m, "HeaderFactory._packet_id")
+        ctx.fn(m, "HeaderFactory.create_from_message")
+        if _packet_id_from_iterator(ctx, R, gen, m, hm, ci, init):
             continue
-        ctx.fn(m, "HeaderFactory._packet_id")
-        ctx.require(fn is not None and init is not None, f"{m.relpath}: HeaderFactory._packet_id/__init__ vanished")
-        # slot size of packet_id in the header struct (position of header.packet_id among pack() arguments)
-        enc = hm.get_class("HeaderEncoder").methods.get("encode")
-        ctx.require(enc is not None, f"{hm.relpath}: HeaderEncoder.encode vanished")
-        st = ctx.repo.try_fold(hm, hm.get_const_expr("_STRUCT"))
-        ctx.require(st is not None, f"{hm.relpath}: _STRUCT not foldable")
-        slot = None
-        for c in ast.walk(enc):
-            if isinstance(c, ast.Call) and (dotted(c.func) or "").endswith("_STRUCT.pack"):
-                for i, a in enumerate(c.args):
-                    if dotted(a) and dotted(a).endswith(".packet_id"):
-                        slot = st.slots[i]
-        ctx.require(slot is not None, f"{hm.relpath}: header.packet_id is not an argument of _STRUCT.pack")
-        limit = 256**slot.size
-        env0 = {}
+        lim = _packet_slot_limit(ctx, hm)
+        ctx.require(lim is not None, f"{hm.relpath}: header.packet_id is not an argument of _STRUCT.pack")
+        limit, size = lim
+        mini = Mini(ctx.repo, m, {}, ci)
+        params = [a.arg for a in cfm.args.args][1:]
         try:
-            _exec(init.body, env0, ctx.repo, m)
-        except _Ret:
-            pass
-        attr = None
-        for k in env0:
-            if k.startswith("self."):
-                attr = k
-        ctx.require(attr is not None, f"{m.relpath}: HeaderFactory.__init__ sets no counter")
-        seen = set()
-        todo = [env0[attr]]
-        returned = set()
-        seq_ok = True
-        while todo:
-            v = todo.pop()
-            if v in seen:
-                continue
-            seen.add(v)
-            if len(seen) > 70000:
-                break
-            env = {attr: v}
-            try:
-                _exec(fn.body, env, ctx.repo, m)
-                ret = None
-            except _Ret as r:
-                ret = r.v
-            returned.add(ret)
-            if ret != v:
-                seq_ok = False
-            todo.append(env[attr])
-        bad = sorted(x for x in returned if not isinstance(x, int) or isinstance(x, bool) or x < 0 or x >= limit)
-        ctx.check(not bad and len(seen) <= 70000, R, f"{gen}:HeaderFactory._packet_id:range", m, fn, f"every returned id fits the {slot.size}-byte packet_id slot [0,{limit - 1}]", f"reachable ids include {bad[:3]} ({len(seen)} counter states)" if bad else f"{len(seen)} states (unbounded)")
-        ctx.check(seq_ok and len(seen) == limit, R, f"{gen}:HeaderFactory._packet_id:sequence", m, fn, f"the returned id is the counter before the increment and the counter cycles through all {limit} values", f"{len(seen)} distinct counter values; returns-pre-increment={seq_ok}")
+            mini.run(init.body, {})
+            ids, seen = [], set()
+            while True:
+                state = tuple(sorted((k, v) for k, v in mini.selfattrs.items() if isinstance(v, (int, float, bool, str, type(None)))))
+                if state in seen or len(seen) > 70000:
+                    break
+                seen.add(state)
+                hdr = mini.function_value(cfm, {params[0]: FakeObj("Message", message_id=0x2A), params[1]: 4})
+                ids.append(getattr(hdr, "packet_id", None) if isinstance(hdr, FakeObj) else None)
+        except Unsupported as ex:
+            raise AnalysisError(f"{m.relpath}: HeaderFactory left the evaluable fragment: {ex}")
+        bad = sorted({x for x in ids if not isinstance(x, int) or isinstance(x, bool) or x < 0 or x >= limit}, key=repr)
+        ctx.check(not bad and len(seen) <= 70000, R, f"{gen}:HeaderFactory._packet_id:range", m, cfm, f"every id handed out fits the {size}-byte packet_id slot [0,{limit - 1}]", f"ids handed out include {bad[:3]} ({len(seen)} counter states explored)" if bad else f"{len(seen)} states (unbounded)")
+        ctx.check(ids == list(range(limit)), R, f"{gen}:HeaderFactory._packet_id:sequence", m, cfm, f"ids are handed out as 0, 1, ..., {limit - 1} and then start again", f"{len(ids)} ids before the counter state repeats, starting {ids[:4]}")
